@@ -44,46 +44,47 @@ pub enum Formula<'a> {
 impl Formula<'_> {
     pub(crate) fn to_boolean_expr(
         &self,
+        var_name: &dyn Fn(&str) -> String,
     ) -> biodivine_lib_bdd::boolean_expression::BooleanExpression {
         match self {
             Formula::Top => biodivine_lib_bdd::boolean_expression::BooleanExpression::Const(true),
             Formula::Bot => biodivine_lib_bdd::boolean_expression::BooleanExpression::Const(false),
             Formula::Atom(name) => {
-                biodivine_lib_bdd::boolean_expression::BooleanExpression::Variable(name.to_string())
+                biodivine_lib_bdd::boolean_expression::BooleanExpression::Variable(var_name(name))
             }
             Formula::Not(subformula) => {
                 biodivine_lib_bdd::boolean_expression::BooleanExpression::Not(Box::new(
-                    subformula.to_boolean_expr(),
+                    subformula.to_boolean_expr(var_name),
                 ))
             }
             Formula::And(sub_a, sub_b) => {
                 biodivine_lib_bdd::boolean_expression::BooleanExpression::And(
-                    Box::new(sub_a.to_boolean_expr()),
-                    Box::new(sub_b.to_boolean_expr()),
+                    Box::new(sub_a.to_boolean_expr(var_name)),
+                    Box::new(sub_b.to_boolean_expr(var_name)),
                 )
             }
             Formula::Or(sub_a, sub_b) => {
                 biodivine_lib_bdd::boolean_expression::BooleanExpression::Or(
-                    Box::new(sub_a.to_boolean_expr()),
-                    Box::new(sub_b.to_boolean_expr()),
+                    Box::new(sub_a.to_boolean_expr(var_name)),
+                    Box::new(sub_b.to_boolean_expr(var_name)),
                 )
             }
             Formula::Iff(sub_a, sub_b) => {
                 biodivine_lib_bdd::boolean_expression::BooleanExpression::Iff(
-                    Box::new(sub_a.to_boolean_expr()),
-                    Box::new(sub_b.to_boolean_expr()),
+                    Box::new(sub_a.to_boolean_expr(var_name)),
+                    Box::new(sub_b.to_boolean_expr(var_name)),
                 )
             }
             Formula::Imp(sub_a, sub_b) => {
                 biodivine_lib_bdd::boolean_expression::BooleanExpression::Imp(
-                    Box::new(sub_a.to_boolean_expr()),
-                    Box::new(sub_b.to_boolean_expr()),
+                    Box::new(sub_a.to_boolean_expr(var_name)),
+                    Box::new(sub_b.to_boolean_expr(var_name)),
                 )
             }
             Formula::Xor(sub_a, sub_b) => {
                 biodivine_lib_bdd::boolean_expression::BooleanExpression::Xor(
-                    Box::new(sub_a.to_boolean_expr()),
-                    Box::new(sub_b.to_boolean_expr()),
+                    Box::new(sub_a.to_boolean_expr(var_name)),
+                    Box::new(sub_b.to_boolean_expr(var_name)),
                 )
             }
         }
